@@ -5,7 +5,8 @@ its voice that starts where it ends, in every order, and checks TimePreserved, S
 NothingLeftToJoin; every settled state is printed (one per array: the order does not matter) and replayed into
 Part.rest_array(collapse=True) on a part with those rests (grid step an eighth, 4 divisions per quarter, 8/8 so that
 beats, quarters and divisions are three different numbers): the rows must be the surviving rests with the combined
-duration in all three units, and the plain rest array must be unaffected.
+duration in all three units, and the plain rest array must be unaffected.  Every third array also as a list of three parts through
+rest_array_from_part_list (ids prefixed with the part number, collapsed or not).
 
 Not a listed property: not registered in MANIFEST.json, prints DEVIATION lines (never VIOLATION), writes growth/G09.json."""
 import json
@@ -70,6 +71,30 @@ def main():
             dev("rows_in_quarters", c, got, want)
         if plain_before.tolist() != plain_after.tolist():
             dev("plain_rest_array_changed", c, plain_after.tolist(), plain_before.tolist())
+        # ---- the rest array of a list of parts (voice 1 in part A, voice 2 in part B, and part A once more): the rows of
+        #      the parts with P00_ / P01_ / P02_ before the ids, collapsed or not
+        if n % 3 == 0:
+            try:
+                from partitura.utils.music import rest_array_from_part_list
+                parts = []
+                for v in (1, 2, 1):
+                    q = S.Part("Q%d" % len(parts))
+                    q.set_quarter_duration(0, 4)
+                    q.add(S.TimeSignature(8, 8), 0)
+                    q.add(S.Note(step="C", octave=4, voice=3, staff=1, id="n0"), 0, 32)
+                    for x in given:
+                        if x["voice"] == v:
+                            q.add(S.Rest(voice=v, staff=1, id="r%d" % x["id"]), 2 * x["on"], 2 * (x["on"] + x["dur"]))
+                    parts.append(q)
+                for coll in (False, True):
+                    la = rest_array_from_part_list(parts, collapse=coll)
+                    gotl = sorted([str(x["id"]), int(x["voice"]), int(x["onset_div"]), int(x["duration_div"])] for x in la)
+                    src = rows if coll else given
+                    wantl = sorted(["P%02d_r%d" % (k, x["id"]), x["voice"], 2 * x["on"], 2 * x["dur"]] for k, v in enumerate((1, 2, 1)) for x in src if x["voice"] == v)
+                    if gotl != wantl:
+                        dev("list_of_parts.rows" + (".collapsed" if coll else ""), c, gotl, wantl)
+            except Exception as ex:
+                dev("list_of_parts.raises", c, "%s: %s" % (type(ex).__name__, str(ex)[:200]), "no exception")
     out = os.path.join(common.OUT, "growth")
     os.makedirs(out, exist_ok=True)
     ev = {"growth_id": "G09", "spec": "Collapse.tla / CollapseCases.tla", "tier": tier,
